@@ -10,6 +10,7 @@
  *   unpack-all            stdout: 65536 x u32 (F16_UNPACK), then 65536 x u32 (WRAP_GET_F16 at bit offset 5)
  *   pack-list             stdin: N x u32; stdout: N x u16 (F16_PACK), then N x u16 (WRAP_SET_F16 at bit offset 3)
  *   mul-list              stdin: N x (u32,u32); stdout: N x u32 = bits(float(a) * float(b))   (the hardware multiply)
+ *   add-list              stdin: N x (u32,u32); stdout: N x u32 = bits(float(a) + float(b))   (the hardware add)
  *   sum START COUNT NBLK  per block of COUNT patterns from START (hex): one checksum line (16 hex digits)
  *   sumu                  checksum of F16_UNPACK over all 65536 patterns
  *   spec START COUNT      property predicates (independent double-precision reference) on F16_PACK over a range
@@ -165,6 +166,20 @@ int main(int argc, char** argv)
             uint32_t a, b; memcpy(&a, in + 8 * i, 4); memcpy(&b, in + 8 * i + 4, 4);
             volatile float fa = f_of(a), fb = f_of(b);
             volatile float fc = fa * fb;
+            o[i] = b_of(fc);
+        }
+        fwrite(o, 4, n, stdout);
+        return 0;
+    }
+    if (strcmp(mode, "add-list") == 0)
+    {
+        size_t n; uint8_t* in = slurp(&n); n /= 8;
+        uint32_t* o = (uint32_t*) malloc(n * 4 + 4);
+        for (size_t i = 0; i < n; i++)
+        {
+            uint32_t a, b; memcpy(&a, in + 8 * i, 4); memcpy(&b, in + 8 * i + 4, 4);
+            volatile float fa = f_of(a), fb = f_of(b);
+            volatile float fc = fa + fb;
             o[i] = b_of(fc);
         }
         fwrite(o, 4, n, stdout);
